@@ -267,7 +267,7 @@ def run_config_symbolic(pid, cfg, tier, seed):
             if wit is None:
                 r, env = prove.satisfiable(A, 2000)
                 wit_status = {'sat': 'solver-sat', 'unsat': 'VACUOUS', 'unknown': 'unknown'}[r]
-                if wit_status == 'VACUOUS' and path is not None and cfg.get('no_feasibility'):
+                if wit_status == 'VACUOUS' and path is not None:
                     wit_status = 'infeasible-path'      # explored without feasibility pruning: nothing to prove here
             else:
                 wit_status = 'sampled'
